@@ -1,17 +1,9 @@
-import FlatModel.Model.Huffman
+import FlatModel.Model.HuffSpec
 /-! Bit-string specification layer for the Huffman container (C06, level L1):
 numbers ↔ MSB-first bit lists. Every shift / mask of the Rust code becomes a list operation. -/
 namespace FC.Huff
 
-/-- value of an MSB-first bit string -/
-def ofBits : List Bool → Nat
-  | [] => 0
-  | b :: bs => b.toNat * 2 ^ bs.length + ofBits bs
-
-/-- the low `l` bits of `code`, most significant first -/
-def bitsOfCode : (l code : Nat) → List Bool
-  | 0, _ => []
-  | l + 1, code => code.testBit l :: bitsOfCode l code
+/-! `ofBits`, `bitsOfCode`: defined in Model/HuffSpec.lean -/
 
 @[simp] theorem ofBits_nil : ofBits [] = 0 := rfl
 @[simp] theorem ofBits_cons (b : Bool) (bs : List Bool) : ofBits (b :: bs) = b.toNat * 2 ^ bs.length + ofBits bs := rfl
